@@ -1383,6 +1383,9 @@ func checkC20(c *Ctx, r *Report) {
 	r.Assumptions = []string{"(*os.File).Write issues write(2) before returning and does not buffer"}
 	ro := c.roles(r)
 	fileAppenderDecisions(r, c.checkFileAppenderSemantics(r, ro, "C20.file-values"))
+	// "once a log call has returned its complete line is in the target" presupposes that the synchronous logger hands the
+	// line to every appender the event's level selects before it returns: the fan-out evaluation (shared with C01/C12)
+	c.checkFanoutSemantics(r, ro, "C20.fanout-values")
 	r.Floor("leaf appenders", len(ro.LeafAppenders), 4)
 	r.Floor("logger implementations", len(ro.Loggers), 6)
 
